@@ -43,7 +43,7 @@ COMPONENTS = {
 ASSUMPTIONS = ["every variant strips leading/trailing whitespace of the captured output: outputs are compared after strip()",
                "command arguments themselves are shell words by design (joined with spaces): only environment values and the working directory are required to pass verbatim",
                "a timed-out command is modelled as having produced its side effect once (the real child ran); what is decided by the simulator is when its output arrives"]
-TIERS = {"quick": {"runs": 400, "budget_s": 150}, "thorough": {"runs": 60000, "budget_s": 480, "chunk": 8, "params": {"big": True}}}
+TIERS = {"quick": {"runs": 400, "budget_s": 150, "chunk": 4}, "thorough": {"runs": 60000, "budget_s": 480, "chunk": 8, "params": {"big": True}}}
 STALL_S = 600   # real child processes: a chunk may need minutes on a loaded machine
 SIM_KW = {"max_steps": 2_000_000, "wall_cap": 60.0, "max_vtime": 1e7}
 
